@@ -64,6 +64,17 @@ def gen_cases(rng, tier):
         c["nsetup"] = 0
         c["tags"] = ["rates"]
         cases.append(c)
+    # money: the hash of an amount is the same outside and inside a
+    # `with converter:` block (a key stored before must be found inside)
+    from props import C12
+    for _ in range(6 if tier == "thorough" else 2):
+        ops = C12.setup_ops()
+        n0 = len(ops)
+        for _ in range(12):
+            cur = rng.choice(C12.CODES)
+            a = rat(Fraction(rng.randint(-10 ** 5, 10 ** 5), 100))
+            ops.append(["q_hash_stable", f"{a}@{cur}", rng.choice(list(C12.CONVS))])
+        cases.append({"ops": ops, "fork": True, "ctx": "money-hash", "nsetup": n0, "tags": ["money-hash"]})
     return cases
 
 
@@ -77,6 +88,10 @@ def oracle(case, impl):
         return [f for f in C09.oracle(case, impl) if f["site"] in ("rate:eq-hash", "rate:eq")]
     if case.get("ctx") is None:
         return [f for f in C07.oracle(case, impl) if f["site"] in ("term:eq-hash",)]
+    if case.get("ctx") == "money-hash":
+        return [{"site": "hash:unstable", "msg": f"{o} -> {out}"}
+                for o, out in list(zip(case["ops"], impl))[case["nsetup"]:]
+                if out != "ok stable=true fresh=true"]
     ctx = _qty.ctx_of(case)
     fails = _qty.setup_failures(case, impl)
     for o, out in list(zip(case["ops"], impl))[case["nsetup"]:]:
